@@ -18,7 +18,8 @@ RULE = ('one case per (entry-point group, seed): every public entry point (fit /
         'the call is repeated with the SAME argument objects and must give the same result; figures are '
         'decoded trace by trace and compared as multisets of points with the given rows; non-trivial = the '
         'call completed and digests were compared; distinct by (entry point, container, seed)')
-DECIDING = {'args.unchanged': 300, 'reuse.same-result': 150, 'plot.points-are-the-rows': 16}
+DECIDING = {'args.unchanged': 300, 'reuse.same-result': 150, 'plot.points-are-the-rows': 16,
+            'args.unchanged(any workload)': 200}
 ASSUMPTIONS = ['a read-only array that makes a call raise is a violation only if the same call on a writeable copy '
                'succeeds and leaves the copy modified', 'plotly figure traces carry the plotted points in x/y/z']
 
@@ -135,9 +136,24 @@ def _plain(res):
     return res
 
 
+FOREIGN = ('c01', 'c02', 'c03', 'c04', 'c05', 'c09', 'c10', 'c11', 'c12', 'c13', 'c14', 'c16', 'c17', 'c18', 'c19')
+
+
+def setup_worker(ctx):
+    # the always-on snapshot probe: every public entry point, whatever workload drives it
+    from vmon import snapshot
+    ctx.note('entry points wrapped by the always-on snapshot probe', snapshot.attach_all())
+
+
 def cases(seed, tier):
     rng = rng_for(seed, 'C20')
     out = []
+    # other properties' workloads replayed under the always-on snapshot probe
+    per = 2 if tier == 'quick' else 40
+    for mon in FOREIGN:
+        for r in range(per):
+            out.append({'group': 'foreign', 'monitor': mon, 'fseed': int(rng.integers(1 << 20)),
+                        'index': int(rng.integers(1 << 20)), 'seed': int(rng.integers(1 << 31))})
     groups = ['univariate', 'bivariate', 'gaussian', 'vine', 'optimize', 'plots', 'misc']
     reps = 3 if tier == 'quick' else 40
     for r in range(reps):
@@ -354,7 +370,34 @@ def _misc(spec, ctx, g, rng):
         g.call('datasets.' + name, 'ints', getattr(datasets, name), (int(rng.integers(1, 30)), int(rng.integers(1000))))
 
 
+def _foreign(spec, ctx):
+    import importlib
+    from vmon import snapshot
+    from vmon.core import Ctx
+    mod = importlib.import_module('vmon.monitors.' + spec['monitor'])
+    specs = mod.cases(spec['fseed'], 'quick')
+    sub = specs[spec['index'] % len(specs)]
+    snapshot.drain()
+    scratch = Ctx(mod.PROPERTY, 'quick', spec['fseed'])
+    scratch.spec, scratch.case_index = sub, 0
+    try:
+        mod.run_case(sub, scratch)          # its own oracle's verdicts are not this property's business
+    except Exception:   # noqa: BLE001
+        ctx.note('foreign workload raised (ignored here)')
+    evs, calls = snapshot.drain()
+    for name, changed, raised in evs:
+        ctx.violation('args.unchanged(any workload)', 'C20:%s-modifies-argument' % name,
+                      {'entry': name, 'arguments_changed': [str(c) for c in changed], 'raised': raised,
+                       'driven_by': spec['monitor'], 'case': sub if len(repr(sub)) < 600 else repr(sub)[:600]})
+    ctx.ok('args.unchanged(any workload)', calls)
+    if calls:
+        ctx.nontriv('foreign|%s|%d|%d' % (spec['monitor'], spec['fseed'], spec['index']))
+    ctx.distinct('foreign workloads watched', spec['monitor'])
+
+
 def run_case(spec, ctx):
+    if spec['group'] == 'foreign':
+        return _foreign(spec, ctx)
     rng = rng_for(spec['seed'], 'c20')
     g = Guard(ctx)
     {'univariate': _univariate, 'bivariate': _bivariate, 'gaussian': _gaussian, 'vine': _vine, 'optimize': _optimize,
